@@ -48,6 +48,8 @@ def key_signed(tkey):
 LEN_MAX = 2**63 - 1
 # collection name -> upper bound on its element count (isize::MAX bytes / lower bound of the element size)
 CNT_BOUNDS = {}
+# symbolic field atom -> upper bound established by the type's construction discipline (builder invariants)
+SYM_BOUNDS = {}
 
 
 class Lin:
